@@ -146,6 +146,8 @@ type world struct {
 	arrived chan struct{}
 	t0      time.Time
 	honour  bool // calls return with ctx.Err() when their context ends
+	// the first call to reach any upstream is answered at once with this outcome (no blocking anywhere)
+	immediate *outcome
 }
 
 type scriptUp struct {
@@ -171,7 +173,12 @@ func (s *scriptUp) ExchangeContext(ctx context.Context, m []byte) (*[]byte, erro
 	c.k = s.w.perUp[s.idx]
 	s.w.perUp[s.idx]++
 	s.w.calls = append(s.w.calls, c)
+	first := len(s.w.calls) == 1
 	s.w.mu.Unlock()
+	if first && s.w.immediate != nil {
+		c.released = true
+		c.rel <- relMsg{*s.w.immediate, s.w.immediate.tag(c.u, c.k)}
+	}
 	s.w.arrived <- struct{}{}
 
 	var ended <-chan struct{}
@@ -599,9 +606,17 @@ func run(sc *scenario) result {
 		waitRet(time.Second)
 	}
 
+	calls, payOK, dl := w.observe(expected)
+	return emitRun(sc, calls, payOK, dl, evs, obs, stuck, map[string]any{"qlen": len(expected)})
+}
+
+// observe reports what the upstreams saw: the upstream index of every call,
+// whether every call was handed exactly the packed query of THIS call in a
+// buffer of its own, and the whole seconds of the deadlines.
+func (w *world) observe(expected []byte) (calls []int, payOK bool, dl string) {
 	all := w.snapshot()
-	calls := make([]int, len(all))
-	payOK := true
+	calls = make([]int, len(all))
+	payOK = true
 	lo, hi := int64(1<<40), int64(-1)
 	seen := map[*byte]bool{}
 	for i, c := range all {
@@ -620,11 +635,163 @@ func run(sc *scenario) result {
 			hi = c.hi
 		}
 	}
-	dl := "None"
+	dl = "None"
 	if len(all) > 0 {
 		dl = hx.Some(hx.Tuple(hx.Z(lo), hx.Z(hi)))
 	}
-	return emitRun(sc, calls, payOK, dl, evs, obs, stuck, map[string]any{"qlen": len(expected)})
+	return
+}
+
+// ---------- late helpers: Exec returns before some helper goroutines have started ----------
+
+// scramble keeps the length of a domain name and changes its letters.
+func scramble(name string, salt int) string {
+	b := []byte(name)
+	for i, ch := range b {
+		if ch != '.' {
+			b[i] = 'a' + byte((int(ch)+salt+i)%26)
+		}
+	}
+	return string(b)
+}
+
+// runLate must be called with GOMAXPROCS(1), from a goroutine that does not
+// block between entering Exec and the end of the recycling step. Exec is called
+// synchronously, so the helper goroutines it starts cannot run before this
+// goroutine blocks: with an already ended context (variant "pre") Exec returns
+// before any helper has started; with upstreams of which the first one reached
+// answers NOERROR at once (variant "imm") Exec returns as soon as one helper
+// has run, the others still waiting for the processor. exchange's deferred
+// ReleaseBuf has then handed the packed query back to the byte pool; the driver
+// packs other messages of the same size (the next queries of a busy server),
+// which recycles that buffer, and only then lets the late helpers run. Whatever
+// an upstream of THIS call receives must still be this call's query.
+// If the scheduler preempts the driver anyway the case degrades to an ordinary
+// one: nothing observed depends on the schedule when the code is correct.
+func runLate(sc *scenario, imm bool) result {
+	w := &world{perUp: make([]int, sc.n), arrived: make(chan struct{}, 64)}
+	if imm {
+		w.immediate = &outcome{kind: "msg", rcode: 0}
+	}
+	vus := make([]fastforward.VerifUpstream, sc.n)
+	for i := range vus {
+		vus[i] = fastforward.VerifUpstream{Tag: fmt.Sprintf("t%d", i), U: &scriptUp{idx: i, w: w}}
+	}
+	f := fastforward.VerifNewForward(sc.conc, vus)
+	defer f.Close()
+	ex, err := entry(f, sc)
+	if err != nil {
+		panic(err)
+	}
+	qCtx := query_context.NewContext(sc.q)
+	expected, err := qCtx.Q().Pack()
+	if err != nil {
+		panic(err)
+	}
+	// the other queries, prepared beforehand so that nothing but packing happens in the window
+	var others []*dns.Msg
+	for i := 0; i < 6; i++ {
+		o := qCtx.Q().Copy()
+		o.Id ^= uint16(0xffff - i)
+		o.Question[0].Name = scramble(o.Question[0].Name, 7*i+3)
+		o.Question[0].Qtype = dns.TypeAAAA + uint16(i)
+		others = append(others, o)
+	}
+	held := make([]*[]byte, 0, len(others))
+	ctx, cancelFn := context.WithCancelCause(context.Background())
+	defer cancelFn(nil)
+	var evs []string
+	if !imm {
+		if sc.cause {
+			cancelFn(errCause)
+		} else {
+			cancelFn(nil)
+		}
+		evs = append(evs, "ECancel")
+	}
+
+	var retErr error
+	w.t0 = time.Now()
+	func() {
+		defer func() {
+			if p := recover(); p != nil {
+				retErr = fmt.Errorf("panic in Exec: %v", p)
+			}
+		}()
+		retErr = ex.Exec(ctx, qCtx)
+	}()
+	// the server goes on: the next queries are packed
+	for _, o := range others {
+		if b, err := pool.PackBuffer(o); err == nil {
+			held = append(held, b)
+		}
+	}
+	obs := classify(retErr, qCtx, ctx)
+
+	// now let every helper reach its upstream
+	e := sc.expectCalls()
+	{
+		t := time.NewTimer(3 * time.Second)
+		for got := 0; got < e; {
+			select {
+			case <-w.arrived:
+				got++
+				continue
+			case <-t.C:
+			}
+			break
+		}
+		t.Stop()
+	}
+	if imm {
+		if all := w.snapshot(); len(all) > 0 {
+			c := all[0]
+			evs = append(evs, hx.App("EArr", hx.Nat(c.u), w.immediate.coq(c.u, c.k)))
+		}
+	}
+	stuck := 0
+	for round := 0; round < 3; round++ {
+		for _, c := range w.snapshot() {
+			if !c.released {
+				c.released = true
+				c.rel <- relMsg{outcome{kind: "fail"}, 0}
+			}
+		}
+		runtime.Gosched()
+	}
+	for _, c := range w.snapshot() {
+		t := time.NewTimer(blockedAfter)
+		select {
+		case <-c.ctx.Done():
+			if !errors.Is(c.ctx.Err(), context.Canceled) {
+				stuck++
+			}
+		case <-t.C:
+			stuck++
+		}
+		t.Stop()
+	}
+	for _, b := range held {
+		pool.ReleaseBuf(b)
+	}
+	calls, payOK, dl := w.observe(expected)
+	r := emitRun(sc, calls, payOK, dl, evs, obs, stuck, map[string]any{"qlen": len(expected), "late": map[bool]string{true: "imm", false: "pre"}[imm]})
+	r.kind = "late"
+	return r
+}
+
+func genLate(r *hx.RNG, id string, conc, n int) *scenario {
+	sc := &scenario{id: id, n: n, conc: conc, ordered: true, cancelAt: -1, cause: r.Bool()}
+	if r.Chance(1, 4) {
+		sc.selKind = 1
+	} else if r.Chance(1, 4) {
+		sc.selKind = 2
+		for i, l := 0, r.Range(1, 3); i < l; i++ {
+			sc.sub = append(sc.sub, r.Intn(n))
+		}
+	}
+	sc.q = genQuery(r)
+	return sc
 }
 
 // ---------- the real constructor over loopback UDP servers ----------
@@ -1094,6 +1261,44 @@ func main() {
 		addJob(id, func() result { return run(genUDP(hx.NewRNG(o.Seed, id), id)) })
 	}
 
+	// Late-helper cases: sequentially, on one processor, before anything else runs.
+	var late []result
+	{
+		type lj struct {
+			id      string
+			conc, n int
+			imm     bool
+		}
+		var ljs []lj
+		trials := 2
+		if thorough {
+			trials = 12
+		}
+		for _, conc := range []int{1, 2, 3, 9} {
+			for _, n := range []int{1, 2, 4} {
+				for t := 0; t < trials; t++ {
+					ljs = append(ljs, lj{fmt.Sprintf("late:pre:%d:%d:%d", conc, n, t), conc, n, false})
+					if conc >= 2 {
+						ljs = append(ljs, lj{fmt.Sprintf("late:imm:%d:%d:%d", conc, n, t), conc, n, true})
+					}
+				}
+			}
+		}
+		var todo []lj
+		for _, j := range ljs {
+			if o.Want(j.id) {
+				todo = append(todo, j)
+			}
+		}
+		if len(todo) > 0 {
+			prev := runtime.GOMAXPROCS(1)
+			for _, j := range todo {
+				late = append(late, runLate(genLate(hx.NewRNG(o.Seed, j.id), j.id, j.conc, j.n), j.imm))
+			}
+			runtime.GOMAXPROCS(prev)
+		}
+	}
+
 	results := make([]result, len(jobs))
 	next := make(chan int, len(jobs))
 	for i := range jobs {
@@ -1112,6 +1317,9 @@ func main() {
 	}
 	wg.Wait()
 	for _, r := range results {
+		w.Emit(r.kind, r.c)
+	}
+	for _, r := range late {
 		w.Emit(r.kind, r.c)
 	}
 }
